@@ -411,7 +411,7 @@ func TestC10_Process(t *testing.T) {
 		"connection is closed; an open connection whose decoder is between packets still answers a valid ack-carrying event; a healthy client on another connection and a new client still round-trip; every API call "+
 		"afterwards returns (a self-deadlock is caught by the watchdog and confirmed on the real clock); no crash (journal). non-trivial = the sequence contains a header-level rejection or an undecodable event")
 	rapidGuard(t, "C10", c10pCheck)
-	runRapid(t, c10pCheck, tierN(2000, 60000), func(t *rapid.T) {
+	runRapid(t, c10pCheck, tierN(8000, 80000), func(t *rapid.T) {
 		c := c10pCase{Leg: rapid.SampledFrom([]string{"hostile-client", "hostile-server"}).Draw(t, "leg"), Transport: rapid.SampledFrom([]string{"polling", "websocket"}).Draw(t, "transport"), Frames: genC10pFrames(t)}
 		f, nt := evalC10p(c)
 		pr := c10pPredict(c.Frames)
